@@ -171,6 +171,7 @@ package util
 //@   ensures[range] !isnan(value) && min <= max ==> min <= result && result <= max
 //@   ensures[id]    min <= value && value <= max ==> result == value
 //@   ensures[sat]   (value > max ==> result == max) && (!(value > max) && value < min ==> result == min)
+//@   ensures[pick]  same(result, value) || same(result, min) || same(result, max)
 //@   modifies nothing
 
 //@ ghost var lastPidOut float64
